@@ -16,7 +16,8 @@ RULE = ("cases are trees: generator-valid eml/dataset trees tweaked so that coun
         "not; individualName with or without givenName; entities with or without description; physical with or without size, "
         "authentication, record delimiter), para with only inline children, description as root, plus mutated trees and the fixture "
         "(totality only). distinct = distinct tree values; non-trivial = valid trees on which the reference evaluator emits at least "
-        "one warning")
+        "one warning"
+        ". Also: trees edited in place and evaluated again, titles wrapped over lines and titles with an invisible character as a token, nested lists, import-like decorations")
 ASSUMPTIONS = [
     "equality with the reference evaluator is demanded on trees that pass validate.tree; elsewhere only totality and entry shape",
     "masked: titles on which the two readings of 'word' (separated by spaces / by any white space) disagree about the threshold; whitespace-only text; intellectualRights whose text sits only in "
